@@ -343,6 +343,7 @@ class DateSpace(Space):
 
     def __init__(self, base, lo=None, hi=None, enum=None):
         self.base, self.lo, self.hi, self.enum = base, lo, hi, enum
+        self.frac = False     # bounds carry fractional seconds (dateTime / time): the value must survive the round trip
         d = {'dateTime': (1900, 2100), 'date': (1900, 2100), 'gYear': (1, 9000), 'gYearMonth': (1000, 3000), 'time': (0, 23), 'gMonth': (1, 12), 'gMonthDay': (1, 12), 'gDay': (1, 28), 'duration': (0, 5000)}[base]
         self.dlo, self.dhi = d
 
@@ -372,11 +373,19 @@ class DateSpace(Space):
     def _range(self):
         return (self.lo if self.lo is not None else self.dlo), (self.hi if self.hi is not None else self.dhi)
 
+    def bf(self, v):
+        """lexical form of a bound facet"""
+        return self.fmt(v) + ('.5' if self.frac else '')
+
     def valid(self, r):
         if self.enum:
             return r.choice(self.enum)
         lo, hi = self._range()
         v = r.randint(lo, hi)
+        if self.frac and r.random() < 0.4:
+            # values that differ from a bound only in the fraction of the second (on either side of it)
+            edge = r.choice([x for x in (lo - 1, lo, hi, hi + 1) if x >= 0])
+            return self.fmt(edge) + r.choice(['.3', '.5', '.7', '.4999', '.5001', ''])
         # on a boundary use the facet's own lexical form: month/day/zone parts make the edges fuzzy
         return self.fmt(v, None if (v in (lo, hi) and (self.lo is not None or self.hi is not None)) else r)
 
@@ -397,21 +406,23 @@ class DateSpace(Space):
         a = r.randint(lo, hi)
         b = r.randint(a, hi)
         floor = 0 if self.base in ('time', 'duration') else 1
+        if self.base in ('dateTime', 'time') and r.random() < 0.5:
+            self.frac = True
         if r.random() < 0.7:
             self.lo = a
             if r.random() < 0.5 and a - 1 >= floor:
-                f.append(facet('minExclusive', self.fmt(a - 1), r))
+                f.append(facet('minExclusive', self.bf(a - 1), r))
             else:
-                f.append(facet('minInclusive', self.fmt(a), r))
+                f.append(facet('minInclusive', self.bf(a), r))
         if r.random() < 0.7 and b + 1 <= self.dhi:
             self.hi = b
             if r.random() < 0.5:
-                f.append(facet('maxInclusive', self.fmt(b), r))
+                f.append(facet('maxInclusive', self.bf(b), r))
             else:
-                f.append(facet('maxExclusive', self.fmt(b + 1), r))
+                f.append(facet('maxExclusive', self.bf(b + 1), r))
         if self.lo is not None and self.hi is not None and self.lo > self.hi:
             self.hi = self.lo
-            f = [facet('minInclusive', self.fmt(self.lo), r), facet('maxInclusive', self.fmt(self.hi), r)]
+            f = [facet('minInclusive', self.bf(self.lo), r), facet('maxInclusive', self.bf(self.hi), r)]
         if r.random() < 0.25:
             lo, hi = self._range()
             self.enum = sorted(set(self.fmt(r.randint(lo, hi), r) for _ in range(r.randint(1, 4))))
@@ -425,6 +436,7 @@ class DateSpace(Space):
 
     def narrow(self, r):
         n = DateSpace(self.base, self.lo, self.hi, list(self.enum) if self.enum else None)
+        n.frac = self.frac
         lo, hi = self._range()
         f = []
         if self.enum:
@@ -433,7 +445,7 @@ class DateSpace(Space):
         if hi - lo >= 4:
             n.lo = r.randint(lo + 1, lo + (hi - lo) // 2)
             n.hi = r.randint(n.lo, hi - 1)
-            f = [facet('minInclusive', self.fmt(n.lo), r), facet('maxInclusive', self.fmt(n.hi), r)]
+            f = [facet('minInclusive', n.bf(n.lo), r), facet('maxInclusive', n.bf(n.hi), r)]
             return n, f
         return None
 
@@ -1667,8 +1679,11 @@ def gen_element(el, ctx, depth=0):
             node.kids.append(simple_value(typ, ctx))
         return node
     ct = typ
-    if depth > 12:
-        return node       # hard stop for recursive type graphs (the instance is then probably invalid, which is fine)
+    ctx.n += 1
+    if depth > 12 or ctx.n > 3000:
+        # hard stop for recursive type graphs and a node budget per instance: a recursive element with minOccurs=2 would
+        # otherwise grow to 2^12 subtrees (the instance is then probably invalid, which is fine: the oracle is differential)
+        return node
     if (ct.abstract or (ct.derived and r.random() < 0.2 and depth < 8)) and ct.name:
         cands = [d for d in all_derived(ct) if d.name and not d.abstract]
         if cands:
